@@ -10,4 +10,5 @@ let () =
   | _ :: "hashtbl" :: _ -> D_hashtbl.run ()
   | _ :: "listtbl" :: _ -> D_listtbl.run ()
   | _ :: "conf" :: _ -> D_conf.run ()
+  | _ :: "alloc" :: _ -> D_alloc.run ()
   | _ -> prerr_endline "usage: driver <area> < ops"; exit 2
